@@ -11,7 +11,7 @@ Shapes are concrete per path; cells may be symbolic.  dtype is a real numpy.dtyp
 """
 import numpy as _np
 
-from .cells import NAN, POISON, ModelGap, is_nan, norm_cell, cell_kind, BoolScalar
+from .cells import NAN, POISON, ModelGap, is_nan, norm_cell, cell_kind, BoolScalar, is_symbolic, num_eq, num_lt
 
 DT_BOOL = _np.dtype(bool)
 DT_INT = _np.dtype(_np.int64)
@@ -20,10 +20,6 @@ DT_OBJECT = _np.dtype(object)
 
 INT64_MAX = 2 ** 63 - 1
 INT64_MIN = -2 ** 63
-
-
-def is_symbolic(v):
-    return hasattr(v, '__ch_realize__')
 
 
 def cint(i, lo, hi, what='index'):
@@ -1065,28 +1061,27 @@ _CMP = ('eq', 'ne', 'lt', 'le', 'gt', 'ge')
 
 
 def _cell_binop(op, a, b, obj=False):
-    if (isinstance(a, float) and is_symbolic(b) and not is_nan(a)) or (
-            isinstance(b, float) and is_symbolic(a) and not is_nan(b)):
-        raise ModelGap('concrete float meets a symbolic int')
+    if op not in _CMP and ((isinstance(a, float) and is_symbolic(b) and not is_nan(a)) or (
+            isinstance(b, float) and is_symbolic(a) and not is_nan(b))):
+        raise ModelGap('arithmetic between a concrete float and a symbolic int')
     if op == 'eq':
         if is_nan(a) or is_nan(b) or a is POISON or b is POISON:
             return False
-        r = a == b
-        return r
+        return num_eq(a, b)
     if op == 'ne':
         if is_nan(a) or is_nan(b) or a is POISON or b is POISON:
             return True
-        return a != b
+        return num_eq(a, b) == False  # noqa: E712
     if op in ('lt', 'le', 'gt', 'ge'):
         if is_nan(a) or is_nan(b) or a is POISON or b is POISON:
             return False
         if op == 'lt':
-            return a < b
+            return num_lt(a, b)
         if op == 'le':
-            return a <= b
+            return num_lt(b, a) == False  # noqa: E712
         if op == 'gt':
-            return a > b
-        return a >= b
+            return num_lt(b, a)
+        return num_lt(a, b) == False  # noqa: E712
     if a is POISON or b is POISON:
         return POISON
     if op in ('and', 'or', 'xor'):
